@@ -14,7 +14,9 @@ EXPLANATION = (
     "member answers the call raises instead of waiting (the receive loop exits within a bounded number of "
     "reads once every member is dead); the surviving member is the one whose answer was taken and every other "
     "process is terminated; each member puts exactly one message; a second solve after the assertions changed "
-    "- while a loser's answer of the first race arrived late - returns the new verdict (R6).  Text-interface "
+    "- while a loser's answer of the first race arrived late - returns the new verdict; with per-member options "
+    "(a member configured to give up, others given by name or with other options) every member process is started "
+    "with the shared options plus its own and the verdict is that of the members that run as configured (R6).  Text-interface "
     "members: when the solver process ends without answering, the reply read terminates with an error (R5, "
     "interpreted against the reference solver process).")
 NOT_DECIDED = ["the model / value obtained afterwards through the control pipe (the surviving member's side of the pipe "
